@@ -159,6 +159,7 @@ type Op struct {
 	V    int     `json:"v,omitempty"`
 	P    *Policy `json:"p,omitempty"`
 	Dt   int64   `json:"dt,omitempty"`
+	Alt  string  `json:"alt,omitempty"` // serve: Link rel=alternate target (observation stream only)
 }
 
 type Emb struct {
@@ -183,9 +184,10 @@ type EOp struct {
 	Dt int64  `json:"dt,omitempty"`
 }
 
-// Input is one case: a loader history, or an engine-level script.
+// Input is one case: a loader history, an engine-level script, or a history of the observation
+// stream with rel=alternate Link headers (compared with the model, never judged by the oracles).
 type Input struct {
-	Kind string `json:"kind"` // history | engine
+	Kind string `json:"kind"` // history | engine | linkobs
 	Cfg  Cfg    `json:"cfg"`
 	Ops  []Op   `json:"ops,omitempty"`
 	EOps []EOp  `json:"eops,omitempty"`
@@ -199,6 +201,7 @@ type answer struct {
 	json bool
 	v    int
 	pol  Policy
+	alt  string
 }
 
 var notFound = answer{code: 404, json: false, pol: Policy{K: pNone}}
@@ -214,10 +217,25 @@ type vclock struct{ offset time.Duration }
 
 func (c *vclock) seconds() int64 { return int64(c.offset / time.Second) }
 
+// requestBudget: the origin answers this many requests per load and refuses the next one, so that
+// a cycle of alternate links cannot exhaust the stack of the real loader.  = run_fuel + 1 of Loader/Run.v.
+const requestBudget = 8
+
 type origin struct {
-	clk  *vclock
-	at   map[string]answer
-	reqs []request
+	clk       *vclock
+	at        map[string]answer
+	reqs      []request
+	answered  int  // requests answered during the current load
+	exhausted bool // the budget ran out during the current load
+}
+
+func (o *origin) overBudget() bool {
+	if o.answered >= requestBudget {
+		o.exhausted = true
+		return true
+	}
+	o.answered++
+	return false
 }
 
 func (o *origin) lookup(key string) answer {
@@ -236,6 +254,9 @@ func bodyOf(a answer) string {
 
 // RoundTrip implements http.RoundTripper.
 func (o *origin) RoundTrip(req *http.Request) (*http.Response, error) {
+	if o.overBudget() {
+		return nil, errors.New("scripted origin: request budget of this load exhausted")
+	}
 	key := req.URL.String()
 	a := o.lookup(key)
 	o.reqs = append(o.reqs, request{node: false, key: key, at: o.clk.seconds(), ans: a})
@@ -245,6 +266,10 @@ func (o *origin) RoundTrip(req *http.Request) (*http.Response, error) {
 	body := bodyOf(a)
 	h := a.pol.headers(time.Now())
 	h.Set("Content-Type", "application/json")
+	if a.alt != "" {
+		h.Set("Content-Type", "text/html")
+		h.Set("Link", fmt.Sprintf(`<%s>; rel="alternate"; type="application/ld+json"`, a.alt))
+	}
 	return &http.Response{
 		Status: fmt.Sprintf("%d scripted", a.code), StatusCode: a.code,
 		Proto: "HTTP/1.1", ProtoMajor: 1, ProtoMinor: 1,
@@ -257,6 +282,9 @@ func (o *origin) RoundTrip(req *http.Request) (*http.Response, error) {
 type ipfsNode struct{ o *origin }
 
 func (n ipfsNode) Cat(path string) (io.ReadCloser, error) {
+	if n.o.overBudget() {
+		return nil, errors.New("scripted ipfs node: request budget of this load exhausted")
+	}
 	key := "ipfs://" + path
 	a := n.o.lookup(key)
 	n.o.reqs = append(n.o.reqs, request{node: true, key: key, at: n.o.clk.seconds(), ans: a})
@@ -391,11 +419,12 @@ func newWorld(cfg Cfg) (*world, error) {
 // ---------------------------------------------------------------- observations
 
 type loadObs struct {
-	ok    bool
-	v     int
-	panic bool
-	msg   string
-	reqs  []request
+	ok        bool
+	v         int
+	panic     bool
+	exhausted bool
+	msg       string
+	reqs      []request
 }
 
 type dumpObs struct {
@@ -427,11 +456,13 @@ func round100(d time.Duration) int64 {
 
 func (w *world) load(u string) (o loadObs) {
 	before := len(w.org.reqs)
+	w.org.answered, w.org.exhausted = 0, false
 	defer func() {
 		if r := recover(); r != nil {
 			o = loadObs{panic: true, msg: fmt.Sprint(r)}
 		}
 		o.reqs = append([]request(nil), w.org.reqs[before:]...)
+		o.exhausted = w.org.exhausted
 	}()
 	doc, err := w.loader.LoadDocument(u)
 	if err != nil {
@@ -573,8 +604,14 @@ func (g *gen) runHistory(in Input) (*result, error) {
 				p = op.P.canon()
 			}
 			g.pols[p] = true
-			w.org.at[op.U] = answer{code: op.Code, json: op.JSON, v: op.V, pol: p}
+			w.org.at[op.U] = answer{code: op.Code, json: op.JSON, v: op.V, pol: p, alt: op.Alt}
 			keyset[op.U] = true
+			if op.Alt != "" {
+				keyset[op.Alt] = true
+				if rt := expectedRoute(in.Cfg, op.Alt); !rt.reject {
+					keyset[rt.key] = true
+				}
+			}
 		case "down":
 			w.org.at[op.U] = answer{down: true}
 			keyset[op.U] = true
@@ -591,7 +628,11 @@ func (g *gen) runHistory(in Input) (*result, error) {
 			}
 			o := w.load(op.U)
 			res.loads = append(res.loads, o)
-			g.checkLoad(in, i, op.U, rt, o, recv, w)
+			if in.Kind == "linkobs" {
+				g.observeLinkLoad(in, rt, o)
+			} else {
+				g.checkLoad(in, i, op.U, rt, o, recv, w)
+			}
 			recv = append(recv, o.reqs...)
 		default:
 			return nil, fmt.Errorf("unknown op %q", op.T)
@@ -605,8 +646,38 @@ func (g *gen) runHistory(in Input) (*result, error) {
 		res.dump = append(res.dump, w.dumpGet(k))
 	}
 	res.raw, res.hasRaw = w.dumpRaw(res.keys)
-	g.checkFinal(in, res, recv, w)
+	if in.Kind != "linkobs" {
+		g.checkFinal(in, res, recv, w)
+	}
 	return res, nil
+}
+
+// observeLinkLoad: histories with rel=alternate links are outside the property's quantifier; what
+// happens there is only counted (observations O-L1, O-L2 of the report), never reported as a failure.
+func (g *gen) observeLinkLoad(in Input, rt routeExp, o loadObs) {
+	switch {
+	case o.panic:
+		g.rep.Count("linkobs-panic")
+	case o.exhausted:
+		g.rep.Count("linkobs-O-L1-load-exhausted-the-request-budget")
+	case len(o.reqs) > 1:
+		g.rep.Count("linkobs-load-followed-alternate-links")
+	}
+	if !o.ok || len(o.reqs) != 0 || rt.reject {
+		return
+	}
+	if _, isEmb := in.Cfg.embedded(rt.key); isEmb {
+		return
+	}
+	// returned without any request: what did the response that carried this version say?
+	for _, op := range in.Ops {
+		if op.T == "serve" && op.JSON && op.V == o.v && op.U != rt.key && op.P != nil {
+			if ok, _, _ := op.P.canon().specPermits(); !ok {
+				g.rep.Count("linkobs-O-L2-alternate-document-reused-against-its-own-headers")
+			}
+			return
+		}
+	}
 }
 
 // checkLoad: the property evaluated on what was observed, independent of the Coq model.
@@ -954,10 +1025,13 @@ func (g *gen) coqHistory(f *coqgen.File, id int, r *result) string {
 	var urltab []string
 	seen := map[string]bool{}
 	for _, op := range r.in.Ops {
-		if op.T != "load" {
+		target := op.U
+		if op.T == "serve" && op.Alt != "" {
+			target = op.Alt
+		} else if op.T != "load" {
 			continue
 		}
-		rt := expectedRoute(r.in.Cfg, op.U)
+		rt := expectedRoute(r.in.Cfg, target)
 		if rt.reject || rt.node || seen[rt.key] {
 			continue
 		}
@@ -974,7 +1048,11 @@ func (g *gen) coqHistory(f *coqgen.File, id int, r *result) string {
 			if op.P != nil {
 				p = op.P.canon()
 			}
-			ops = append(ops, fmt.Sprintf("RServe %s %d %s %d %d %s", f.Str(op.U), op.Code, coqgen.Bool(op.JSON), op.V, p.K, sint(p.N)))
+			if op.Alt != "" {
+				ops = append(ops, fmt.Sprintf("RServeAlt %s %d %s %d %d %s %s", f.Str(op.U), op.Code, coqgen.Bool(op.JSON), op.V, p.K, sint(p.N), f.Str(op.Alt)))
+			} else {
+				ops = append(ops, fmt.Sprintf("RServe %s %d %s %d %d %s", f.Str(op.U), op.Code, coqgen.Bool(op.JSON), op.V, p.K, sint(p.N)))
+			}
 		case "down":
 			ops = append(ops, "RDown "+f.Str(op.U))
 		case "tick":
@@ -986,6 +1064,8 @@ func (g *gen) coqHistory(f *coqgen.File, id int, r *result) string {
 			switch {
 			case o.panic:
 				obs = append(obs, "ObPanic")
+			case o.exhausted:
+				obs = append(obs, "ObExhausted "+coqReqs(f, o.reqs))
 			case o.ok:
 				v := o.v
 				if v < 0 {
@@ -1320,6 +1400,90 @@ func scripted() []Input {
 	return out
 }
 
+// genLinkObs: histories in which responses may carry `Link: <t>; rel="alternate"` (observation stream).
+func (g *gen) genLinkObs() Input {
+	r := g.cfg.Rng
+	cfg := Cfg{Mode: []int{2, 2, 2, 0, 1, 3, 5}[r.Intn(7)]}
+	urls := []string{"http://a.test/u", "http://a.test/alt", "https://b.test/alt2"}
+	switch r.Intn(4) {
+	case 0:
+		cfg.Cli = true
+		urls = append(urls, "ipfs://QmA/schema.json")
+	case 1:
+		cfg.GW = "http://gw.test/"
+		urls = append(urls, "ipfs://QmA/schema.json")
+	case 2:
+		urls = append(urls, "ftp://a.test/d1")
+	}
+	var keys []string
+	for _, u := range urls {
+		if rt := expectedRoute(cfg, u); !rt.reject {
+			keys = append(keys, rt.key)
+		}
+	}
+	if cfg.Mode == 2 && r.Intn(4) == 0 {
+		cfg.Emb = append(cfg.Emb, Emb{U: keys[r.Intn(len(keys))], V: 900})
+	}
+	in := Input{Kind: "linkobs", Cfg: cfg}
+	version := 0
+	serve := func(k string) {
+		version++
+		op := Op{T: "serve", U: k, Code: 200, JSON: true, V: version, P: g.genPolicy()}
+		if r.Intn(100) < 45 && !strings.HasPrefix(k, "ipfs://") {
+			op.Alt = urls[r.Intn(len(urls))] // may be k itself, may be an unsupported scheme
+			op.JSON = r.Intn(3) == 0
+		}
+		if r.Intn(100) < 8 {
+			op.Code = codePool[r.Intn(len(codePool))]
+		}
+		in.Ops = append(in.Ops, op)
+	}
+	for _, k := range keys {
+		if r.Intn(10) < 8 {
+			serve(k)
+		}
+	}
+	n := 2 + r.Intn(20)
+	for i := 0; i < n; i++ {
+		switch x := r.Intn(100); {
+		case x < 50:
+			in.Ops = append(in.Ops, Op{T: "load", U: urls[r.Intn(len(urls))]})
+		case x < 78:
+			serve(keys[r.Intn(len(keys))])
+		case x < 82:
+			in.Ops = append(in.Ops, Op{T: "down", U: keys[r.Intn(len(keys))]})
+		default:
+			if cfg.Mode == 0 {
+				continue
+			}
+			in.Ops = append(in.Ops, Op{T: "tick", Dt: tickPool[r.Intn(len(tickPool))]})
+		}
+	}
+	return in
+}
+
+// fixed histories of the observation stream: the witnesses of C19_link_reuse_refuted (O-L2) and
+// C19_link_diverges_refuted (O-L1), a two-cycle, and a chain that ends well
+func scriptedLinkObs() []Input {
+	u, a, b := "http://a.test/u", "http://a.test/alt", "https://b.test/alt2"
+	pol := func(k int, n int64) *Policy { return &Policy{K: k, N: n} }
+	alt := func(k string, p *Policy, t string) Op {
+		return Op{T: "serve", U: k, Code: 200, JSON: false, P: p, Alt: t}
+	}
+	doc := func(k string, v int, p *Policy) Op { return Op{T: "serve", U: k, Code: 200, JSON: true, V: v, P: p} }
+	load := func(k string) Op { return Op{T: "load", U: k} }
+	return []Input{
+		{Kind: "linkobs", Cfg: Cfg{Mode: 2}, Ops: []Op{alt(u, pol(pMaxAge, 3000), a), doc(a, 1, pol(pNoStore, 0)), load(u),
+			doc(a, 2, pol(pNoStore, 0)), {T: "tick", Dt: 1000}, load(u), {T: "tick", Dt: 2000}, load(u)}},
+		{Kind: "linkobs", Cfg: Cfg{Mode: 1}, Ops: []Op{alt(u, pol(pNoStore, 0), u), load(u)}},
+		{Kind: "linkobs", Cfg: Cfg{Mode: 2}, Ops: []Op{alt(u, pol(pMaxAge, 1000), a), alt(a, pol(pMaxAge, 1000), u), load(u), load(a)}},
+		{Kind: "linkobs", Cfg: Cfg{Mode: 2}, Ops: []Op{alt(u, pol(pMaxAge, 1000), a), alt(a, pol(pMaxAge, 2000), b), doc(b, 1, pol(pMaxAge, 3000)),
+			load(u), load(a), load(b), {T: "tick", Dt: 1000}, load(u), load(a), load(b)}},
+		{Kind: "linkobs", Cfg: Cfg{Mode: 2, Cli: true}, Ops: []Op{alt(u, pol(pMaxAge, 1000), "ipfs://QmA/schema.json"),
+			doc("ipfs://QmA/schema.json", 1, pol(pNone, 0)), load(u), load(u), alt(a, pol(pNone, 0), "ftp://a.test/d1"), load(a)}},
+	}
+}
+
 // enumerate: EVERY history of length 1..maxLen over one URL and the alphabet
 // {serve max-age=1000, serve no-store, serve (no headers), serve no-cache,max-age=1000, serve 404+max-age,
 //
@@ -1392,6 +1556,12 @@ func (g *gen) addHistory(in Input) error {
 	g.cases = append(g.cases, res)
 	rep := g.rep
 	rep.Evaluations++
+	if in.Kind == "linkobs" {
+		rep.Count("linkobs-history")
+		b, _ := json.Marshal(in)
+		rep.Distinct(string(b))
+		return nil
+	}
 	rep.Count(fmt.Sprintf("mode-%d", in.Cfg.Mode))
 	switch {
 	case in.Cfg.Cli && in.Cfg.GW != "":
@@ -1505,6 +1675,18 @@ func Run(cfg *common.Config) (*common.Report, error) {
 			return nil, err
 		}
 	}
+	// observation stream: rel=alternate Link headers (outside the property's quantifier): compared
+	// with the model like everything else, but not judged by the oracles
+	for _, in := range scriptedLinkObs() {
+		if err := g.addHistory(in); err != nil {
+			return nil, err
+		}
+	}
+	for i := 0; i < cfg.Pick(150, 1500); i++ {
+		if err := g.addHistory(g.genLinkObs()); err != nil {
+			return nil, err
+		}
+	}
 	for i, r := range g.cases {
 		if i%211 == 3 {
 			g.sample(r)
@@ -1526,7 +1708,8 @@ func Run(cfg *common.Config) (*common.Report, error) {
 	rep.Notes = append(rep.Notes, fmt.Sprintf("recorded cachecontrol.CachableResponse table, %d header sets; rows for n=1000: %s", len(rows), strings.Join(tab, "; ")))
 	rep.Notes = append(rep.Notes,
 		"virtual clock: CacheEngine wrapper shifts expiry by the simulated offset; the default engine (mode 0) cannot be wrapped, its histories contain no ticks",
-		"expiry times are compared after rounding to 100 s")
+		"expiry times are compared after rounding to 100 s",
+		"observation stream (kind linkobs): responses with `Link: rel=alternate` are outside C19's quantifier; these histories are compared model-vs-implementation only, the counters linkobs-O-L1-* / linkobs-O-L2-* in the distribution record how often the real loader exhausted the per-load request budget (unbounded recursion, C19_link_diverges_refuted) and returned, without a request, an alternate document whose own response did not permit reuse (C19_link_reuse_refuted)")
 	if err := g.writeShards(rows); err != nil {
 		return nil, err
 	}
@@ -1548,7 +1731,9 @@ func replay(cfg *common.Config, g *gen) (*common.Report, error) {
 		}
 		fmt.Printf("replay: engine script, %d ops, gets=%+v\n", len(in.EOps), g.ecs[0].gets)
 	default:
-		in.Kind = "history"
+		if in.Kind != "linkobs" {
+			in.Kind = "history"
+		}
 		if err := g.addHistory(in); err != nil {
 			return nil, err
 		}
